@@ -7,210 +7,205 @@ import subprocess
 HERE = os.path.dirname(os.path.dirname(os.path.abspath(__file__)))
 
 # pid -> (category, technique, level text, level note, design ref)
-CHECKS = {
-    "C17": (
-        "exploration",
-        "Hypothesis + enumerated hostile corpus: adversarial / malformed LLM answers (and mutations of well-formed ones) placed at every LLM call position of multi-turn conversations in nine pipeline modes (Colang 1.0 three-step, single-call, multi-step, passthrough, general, with shipped rails; Colang 2.x llm continuation, value generation, passthrough); oracle = generate returns a well-formed message, never raises or hangs, planted template/variable syntax is returned literally and the planted secret never appears",
-        "About 190 hostile answer classes, 20 template payloads wrapped in the format of the task at that position, and generated mutations of the well-formed answer are "
-        "returned by the scripted LLM at each call position (reach is measured from the LLM call log); generate must return {'role': 'assistant'|'exception', ...}, never raise, "
-        "never hang (confirmed watchdog), a following benign turn must complete too, and where planted `{{ 7*7 }}` / `$secret_var` / `{$secret_var}` syntax is returned at a message-text "
-        "position the reply must contain it literally and neither the evaluated value nor the planted secret. Violations are bucketed by exception type + innermost nemoguardrails frame. "
-        "Four findings are listed open (multi-step mode: C17-F7c/d/e; v2 brace interpolation: C17-F7g) and classified by precise signatures so that the search continues past them.",
-        "The fixed internal-error reply and empty v2 replies are well-formed outcomes (counted, not violations); a `$var` in a generated bot INTENT is resolved by design and is not a message-text position.",
-        "DESIGN.md 4/C17",
-    ),
-    "C15": (
-        "exploration",
-        "Hypothesis: generated sets of adversarially related conversations x sequential interleavings on one shared LLMRails instance, and concurrent generate_async tasks with generated latencies/offsets on a virtual-time loop; differential oracle against isolated replay on fresh instances + parameter invariant at quiescence",
-        "Sequential leg: 2-4 conversations over a collision-prone alphabet (':' in texts, histories that re-spell another conversation's transcript with merged messages or swapped "
-        "roles, context messages) are interleaved on one instance; concurrent leg: 2-5 generate_async tasks with per-task llm_params, log and streaming options run under a "
-        "virtual clock with generated latencies. The LLM is a pure function of the prompt. Every conversation is also replayed alone on a fresh instance; replies, logs, streamed "
-        "chunks, per-turn prompts and the temperature/max_tokens seen at call start and end must be identical, and whenever no request is in flight the LLM object's parameters "
-        "must be the configured ones. Two findings are listed open (C15-F9b llm_params race, C15-F9c None left in model_kwargs); while F9b is open three quarters of the concurrent "
-        "cases come from a sub-domain without llm_params so that the search continues past it.",
-        "asyncio interleavings only (no OS threads); a supplied history that equals (roles and contents) a transcript already served by the instance is the same conversation for the instance and is not judged.",
-        "DESIGN.md 4/C15",
-    ),
-    "C03": (
-        "fault_enumeration",
-        "Hypothesis-generated rail configurations and conversations (Colang 1.0 and 2.x) x enumeration of ALL single fault plans (action call site x invocation index; thorough: all pairs) derived from a fault-free dry run; oracle = generate returns, unchecked LLM text withheld, next turn identical to the dry run",
-        "For every drawn configuration/conversation a fault-free dry run yields the sequence of custom-action invocations (input rails, output rails, retrieval and dialog "
-        "actions); then every single invocation (thorough: every pair) is made to raise RuntimeError in turn. For each plan: generate must return normally; a fault in an "
-        "output-rail action must keep that turn's LLM text out of the reply (refusal or fixed internal-error message instead); a fault in an input-rail action must prevent any "
-        "generation LLM call in that turn; and the following fault-free turn must show exactly the rail trace and reply of the dry run (the failure does not poison the conversation).",
-        "Fail-closed is asserted for rails of the library convention (`if not $allowed`); a dialog-action fault in v2 may legitimately give an empty reply; LLM provider failures are excluded as the property says.",
-        "DESIGN.md 4/C03",
-    ),
-    "C01": (
-        "exploration",
-        "Hypothesis: generated rail sets/orders x accept/reject/rewrite verdict tables x hostile user texts x multi-turn conversations (Colang 1.0 and 2.x) through LLMRails.generate; reference pipeline model over the rail-action trace, the scripted LLM's prompt log and the reply",
-        "Conversations of 1-4 turns with 1-4 input rails (custom check/rewrite rails and the shipped self check input), with/without dialog rails, rail exceptions "
-        "on/off, sync and async API, are run through the public LLMRails API with marker-carrying texts; a reference model requires: rails called in configured order on the text "
-        "as rewritten so far and before any dialog/generation step; after a reject no later rail, no generation LLM call, no dialog action, reply = that rail's refusal/exception; "
-        "(1.0) after a rewrite no prompt of this or any later turn contains the original marker.",
-        "Fake embedding provider and prompt-classifying scripted LLM (vf/fakes.py); every violation is re-confirmed on a fresh LLMRails instance; v2 rails are check-only "
-        "(the statement restricts rewriting to 1.0); turns that exceed the v1 100-event limit are skipped and counted.",
-        "DESIGN.md 4/C01",
-    ),
-    "C02": (
-        "exploration",
-        "Hypothesis: generated output-rail sets x verdict sequences x conversations of 2-5 turns where any turn may be blocked/rewritten, predefined and LLM messages alternating (Colang 1.0 and 2.x); reference model + history invariant (turn t is checked like turn 0)",
-        "Every LLM-originated text (tracked by lineage markers) that reaches a reply must have passed all configured output rails in order, never after a reject, only in its final "
-        "rewritten form; a rejected turn's reply carries the refusal or OutputRailException; no LLM text of another turn resurfaces; the rail-call trace of turn t depends only on "
-        "turn t's verdicts, whatever happened in earlier turns.",
-        "Same harness and fresh-instance confirmation as C01; messages produced by the rails themselves and predefined messages are exempt; failing rails are C03's domain.",
-        "DESIGN.md 4/C02",
-    ),
-    "C16": (
-        "exploration",
-        "exhaustive enumeration of the option-subset x spelling x verdict-vector table (768 rows) + Hypothesis-sampled texts; reference decision table over rail-action trace, LLM call count, reply and GenerationResponse.log",
-        "All 16 subsets of {input, dialog, retrieval, output} in list and dict spelling x every effective verdict vector are enumerated completely; for each row no rail of an "
-        "unselected category may run, selected input rails run in order until the first reject, rails-only modes make 0 LLM calls and return exactly user text / rewritten text / "
-        "supplied bot message / refusal, and log.activated_rails lists exactly the rails that ran with stop on exactly the blocking rail.",
-        "Colang 1.0 only (as the property says); per-rail name lists in options are documented as unsupported and not generated; retrieval rails during refusal generation are not asserted.",
-        "DESIGN.md 4/C16",
-    ),
-    "C19": (
-        "exploration",
-        "Hypothesis: generated batching/caching configurations x request schedules (arrival offsets, model latencies) on a virtual-time asyncio loop; oracle = each result equals the fake model's own vector, order preserved, no deadlock; enumerated burst grid",
-        "The real BasicEmbeddingsIndex (batching, cache decorator with every store/key generator) is driven with a deterministic fake embedding model on a virtual-clock "
-        "event loop owned by the harness, so arrival times, batch hold times and model latencies are part of the generated case; every returned vector must equal "
-        "model(text) in input order, stored item embeddings and search ranking must be consistent, every request must complete (deadlock/livelock/hang are violations) "
-        "and nothing may stay pending. A 1465-case burst grid around the batch size is enumerated.",
-        "Only asyncio interleavings at the await points of this code path are explored (no OS threads); a raising model is out of scope.",
-        "DESIGN.md 4/C19",
-    ),
-    "C20": (
-        "exploration",
-        "Hypothesis: grammar-based generator of config id strings (separators, dot sequences, encodings, look-alikes, absolute paths) and generated request histories over several thread ids against the real FastAPI app; path-confinement predicate + dict model of threads",
-        "Requests are sent through TestClient to the real api.app with LLMRails stubbed and RailsConfig.from_path wrapped: every path the server tries to load must "
-        "resolve to the root or below (an audit hook also watches file access outside the root), valid ids load exactly root/<id>, everything else gets the fixed "
-        "'could not load' reply; for thread histories a dict model predicts the exact message list the rails receive and what is stored afterwards, for every step.",
-        "The empty/absent id and '.' are checked for confinement only; requests with `context` use the weaker 'stored = received + reply' check; symlinks inside the root are not created.",
-        "DESIGN.md 4/C20",
-    ),
-    "C13": (
-        "exploration",
-        "Hypothesis: layout-preserving edits of every shipped .co file and of generated v1/v2 programs (metamorphic parse equality); character mutations, truncations and token soups loaded through RailsConfig.from_path (exception-type oracle + hang watchdog), bucketed by root cause",
-        "Layout leg: blank lines, trailing spaces/tabs, (2.x) end-of-line comments, uniform indentation scaling and final-newline changes are applied to all shipped "
-        "files and generated programs; the parse result must be identical modulo source positions. Error leg: mutated/truncated/token-soup texts are written to a "
-        "temp config and loaded through RailsConfig.from_path; the outcome must be success or ColangParsingError naming the file; any other exception type, bucketed "
-        "by innermost nemoguardrails frame, or a confirmed hang is a violation. Truncation at every byte of two small programs is enumerated.",
-        "Comments are only appended to lines that already hold code (comment-only lines are statements in 2.x); v1 comments are semantic and never inserted; texts with import/include tokens are excluded and counted.",
-        "DESIGN.md 4/C13",
-    ),
-    "C14": (
-        "exploration",
-        "Hypothesis: generated structured Colang 1.0 programs (vf/co1.py) x co-simulated follow/leave histories; independent reference interpreter over the source AST; purity re-evaluation on a used instance",
-        "Generated flows/subflows (user/bot steps, set, if/else, while, do, execute) are compiled by the real parser; after every event of a co-simulated history "
-        "(follow the flow, leave it for another flow, unknown intent) compute_next_steps - and in most cases RuntimeV1_0.generate_events - must decide exactly the step "
-        "a 60-line reference interpreter of the source AST expects (bot intent, action start with parameters, context updates); every recorded prefix is re-evaluated "
-        "after other histories ran on the same flow configs/runtime and must give identical steps.",
-        "Competing intents, when-branches, extension flows and parallel-active flows are outside the stated subset; histories stop where two top-level flows would be active side by side.",
-        "DESIGN.md 4/C14",
-    ),
-    "C06": (
-        "exploration",
-        "Hypothesis: grammar-based Colang 2 program generator (flow/action hierarchies, activation, when, groups) x event histories with late/early/missing action Finished events x tie-breaks; history invariants over Start/Stop events and flow statuses",
-        "After every processed event the harness checks, from the outgoing events and a read-only snapshot of the flow instances: no Stop for a never-started, "
-        "already-stopped or already-finished action; every flow instance that left the running set had all its unshared unfinished actions stopped exactly once by "
-        "the end of that step; no running flow has a non-running parent; activated flows are listening while an activator runs and gone when none does.",
-        "Activators are approximated statically (flows containing `activate X`); the finish-without-waiting exception is outside the generated domain.",
-        "DESIGN.md 4/C06",
-    ),
-    "C11": (
-        "exploration",
-        "Hypothesis: generated Colang 2 programs with rich variables x histories x cut points x {save/restore, ageing, both}; differential oracle live continuation vs restored/aged continuation under identical tie-breaks and a controlled clock",
-        "For every drawn (program, history, cut, mode) two executions from scratch are compared: the live one, and one that at the cut serialises and restores the "
-        "State through state_to_json/json_to_state (must not raise; C09 invariants must hold on the result) and/or advances the interpreter's clock past the 5 s "
-        "clean-up age; the canonicalised outgoing events of every later step must be identical. Fixed program families (one per rich value kind, activated flows "
-        "that restart) are run with EVERY cut point x mode.",
-        "Cuts are between events; set values compared as sets; the LLMRails-level generate(state=...) path is not driven by this check.",
-        "DESIGN.md 4/C11",
-    ),
-    "C12": (
-        "exploration",
-        "exhaustive enumeration of every shipped .co file + Hypothesis grammar-based generation of Colang 1.0/2.x programs; static closure predicate over the compiled element lists",
-        "Every .co file in the repository (210 today; both Colang versions) and generated programs with nested if/while/when, groups, break/continue and "
-        "flow/action calls are compiled by the real parser/expander; a static predicate then requires that only interpreter primitives remain, that every Goto/"
-        "ForkHead/CatchPatternFailure/Break/Continue target is an indexed Label of the same flow, every MergeHeads has its ForkHead, scopes are closed, and (1.0) "
-        "every relative or absolute jump and branch head lands inside the flow.",
-        "The predicate is written against the element classes `slide` executes; scope closure is per name, not per path; 2.x files that need flows from outside "
-        "the standard library and their own directory are skipped and counted.",
-        "DESIGN.md 4/C12",
-    ),
-    "C10": (
-        "fault_enumeration",
-        "Hypothesis-generated Colang 2 programs with one injected erroneous statement at every enumerated/drawn position + immediately failing activated flows; oracle = deterministic step budget, canary flows, ColangError watcher, C09 invariants, through the real RuntimeV2_x.process_events",
-        "Eight kinds of erroneous statements (bad expression, subscript, undefined reference, invalid regex / comparison pattern in a match, surplus arguments, "
-        "out-of-range priority, wrong action argument type) are injected at every position after the first wait of fixed helper families (enumerated) and at "
-        "drawn positions of generated helpers; activated flows that finish/return/abort/raise before any wait are added. Events are processed through the real "
-        "RuntimeV2_x.process_events; per event a step budget on the interpreter's entry points decides termination, two canary flows must each react exactly once "
-        "to every canary event (same and later events), a reached fault must be visible as ColangError to a watcher flow, no exception may escape and the C09 "
-        "structural invariants must still hold.",
-        "Step budget max(2000, 200 x source lines) per event stands in for 'a bound that depends only on the program size'; faults before a flow's first wait and "
-        "failing activations legitimately fail the starter, so only termination is asserted for them.",
-        "DESIGN.md 4/C10",
-    ),
-    "C09": (
-        "exploration",
-        "Hypothesis: grammar-based Colang 2 program generator x event histories (incl. co-simulated 'hit' events and action life-cycle events) x tie-breaks; invariant checking of the interpreter State against a from-scratch scan after every event",
-        "After the start and after every fed event the State object is inspected: no pending internal event, every live head of a listening flow "
-        "parked on a waiting element, done instances hold no live head, the dispatch index equals a from-scratch scan of all waiting match statements "
-        "(no missing, stale or duplicate entry; reverse map exact), flow_id_states partitions flow_states, referenced actions/children/parents exist. "
-        "Thorough tier additionally enumerates all histories of length <= 4 over a 3-event alphabet for 60 generated programs.",
-        "The scan uses the interpreter's own notion of 'listening flow' and of the event name of a match element; the shipped library flows are not part of the generated domain yet.",
-        "DESIGN.md 4/C09",
-    ),
-    "C08": (
-        "exploration",
-        "Hypothesis: generated signatures x call forms x value types; reference binder (positional -> named -> default -> None) and straight-line callee model; sibling-instance interleavings",
-        "Generated flow signatures and calls (positional/named/default mixes, simple and classic syntax, await/assign/start-ref, literal and event-carried "
-        "values incl. containers, None, bools and hostile strings) are executed by the real interpreter; the parameters echoed by the callee, the value "
-        "assigned by `$x = await f`, and the caller's/sibling's same-named variables must equal a Python reference binder and straight-line evaluation.",
-        "Trusts the 20-line reference binder; surplus positionals, globals, no-return assign-await, list literals as simple-syntax positionals and `$`/`{}` in literal strings are outside the domain.",
-        "DESIGN.md 4/C08",
-    ),
-    "C05": (
-        "exploration",
-        "Hypothesis: generated sets of 2-6 competing flows (specificity, priority, action identity, loop, tie-break outcome); reference winner model with a validity predicate for ties",
-        "Generated competitions are run through the real interpreter with the tie-break (`random.choice`) owned by the case; per interaction loop the set of "
-        "flows still running must be the co-winner set of ONE top-scoring flow (score = 0.9^unmentioned x priority), every other fitting flow stopped, "
-        "non-fitting flows untouched, and each winning action started exactly once.",
-        "Trusts the score formula of the docs (0.9 per unmentioned parameter x priority); ties within 1e-9 accept any tied winner; wrapped variant keeps all flows at equal depth.",
-        "DESIGN.md 4/C05",
-    ),
-    "C07": (
-        "exploration",
-        "Hypothesis: and/or formula generator x event sequences; oracle = evaluate the boolean formula over events seen; exhaustive permutations for all formula shapes with <=4 leaves",
-        "Every formula shape with <=4 leaves (depth<=3) is run under ALL orders of its leaf events in the three program forms (match / await / when), and "
-        "generated formulas of up to 5 leaves are run against generated event sequences with repetitions and irrelevant events; the marker after the group "
-        "statement must appear at exactly the first step at which the formula evaluates to true over the set of events seen, never earlier and never twice.",
-        "Trusts the 5-line formula evaluator; leaves of one formula are distinct; each leaf flow is `match Ev_i()`; `when` else-branches are not exercised.",
-        "DESIGN.md 4/C07",
-    ),
-    "C04": (
-        "exploration",
-        "Hypothesis: recursive pattern generator + payloads derived from the pattern's witness by structural mutation; differential against an independent reference matcher; exhaustive small-universe table",
-        "Generated (pattern, payload) pairs - payloads derived from the pattern by insert/drop/swap/alter/retype - are run through the real "
-        "interpreter (`match Ev(p=P)` then `send Hit()`), and the verdict must equal an independent 40-line recursive matcher written from the "
-        "property text; a table over a tiny universe is enumerated completely; instance-specific matches ($ref.Finished()) are enumerated for "
-        "3 action/flow instances.",
-        "Trusts the reference matcher; regex-vs-bool/None and numerically-equal cross-type scalars are treated as unspecified and skipped/never generated; "
-        "patterns are literals (no ComparisonExpression).",
-        "DESIGN.md 4/C04",
-    ),
-    "C18": (
-        "exploration",
-        "Hypothesis-generated texts/configs x exhaustive enumeration of all 2^(n-1) chunkings; metamorphic + reference-function oracle",
-        "Every chunking of each generated short text (all 2^(n-1) of them) is driven through the real StreamingHandler callbacks and "
-        "must deliver the same concatenation, equal to an independent reference string function and to `completion`; texts/configs are "
-        "sampled, so this is exploration, but the schedule dimension (chunkings) is complete for n<=11.",
-        "Trusts the 20-line reference function ref() (prefix strip, first stop cut, suffix strip); tokens are non-empty; cases where "
-        "'suffix first' and 'stop first' readings differ are not compared with the reference (only with each other).",
-        "DESIGN.md 4/C18",
-    ),
-}
+CHECKS = {'C01': ('exploration',
+         'Hypothesis: generated rail sets/orders x accept/reject/rewrite verdict tables x hostile user texts x multi-turn conversations (Colang 1.0 and 2.x) through LLMRails.generate; reference '
+         "pipeline model over the rail-action trace, the scripted LLM's prompt log and the reply",
+         'Conversations of 1-4 turns with 1-4 input rails (custom check/rewrite rails and the shipped self check input), with/without dialog rails, rail exceptions on/off, sync and async API, are '
+         'run through the public LLMRails API with marker-carrying texts; a reference model requires: rails called in configured order on the text as rewritten so far and before any '
+         "dialog/generation step; after a reject no later rail, no generation LLM call, no dialog action, reply = that rail's refusal/exception; (1.0) after a rewrite no prompt of this or any later "
+         'turn contains the original marker. Since rounds 3-5 also: user texts and rewrite products that are exactly `$name` of a defined variable, per-call generation options (input-off call, then '
+         'plain calls), rail-exception event types, listener flows in other Colang 2.x interaction loops.',
+         'Fake embedding provider and prompt-classifying scripted LLM (vf/fakes.py); every violation is re-confirmed on a fresh LLMRails instance; v2 rails are check-only (the statement restricts '
+         'rewriting to 1.0); turns that exceed the v1 100-event limit are skipped and counted.',
+         'DESIGN.md 4/C01'),
+ 'C02': ('exploration',
+         'Hypothesis: generated output-rail sets x verdict sequences x conversations of 2-5 turns where any turn may be blocked/rewritten, predefined and LLM messages alternating (Colang 1.0 and '
+         '2.x); reference model + history invariant (turn t is checked like turn 0)',
+         'Every LLM-originated text (tracked by lineage markers) that reaches a reply must have passed all configured output rails in order, never after a reject, only in its final rewritten form; a '
+         "rejected turn's reply carries the refusal or OutputRailException; no LLM text of another turn resurfaces; the rail-call trace of turn t depends only on turn t's verdicts, whatever happened "
+         'in earlier turns. Since rounds 3-5 also: per-call options (output-off call then plain calls), completions with a leading <think> block, very long completions with head and tail markers, '
+         'multi-step generation with inline messages, Colang 2.x parallel replies (open finding C02-F23).',
+         "Same harness and fresh-instance confirmation as C01; messages produced by the rails themselves and predefined messages are exempt; failing rails are C03's domain.",
+         'DESIGN.md 4/C02'),
+ 'C03': ('fault_enumeration',
+         'Hypothesis-generated rail configurations and conversations (Colang 1.0 and 2.x) x enumeration of ALL single fault plans (action call site x invocation index; thorough: all pairs) derived '
+         'from a fault-free dry run; oracle = generate returns, unchecked LLM text withheld, next turn identical to the dry run',
+         'For every drawn configuration/conversation a fault-free dry run yields the sequence of custom-action invocations (input rails, output rails, retrieval and dialog actions); then every '
+         "single invocation (thorough: every pair) is made to raise RuntimeError in turn. For each plan: generate must return normally; a fault in an output-rail action must keep that turn's LLM "
+         'text out of the reply (refusal or fixed internal-error message instead); a fault in an input-rail action must prevent any generation LLM call in that turn; and the following fault-free '
+         'turn must show exactly the rail trace and reply of the dry run (the failure does not poison the conversation). Since rounds 3-4 also: 22 exception kinds (NotImplementedError, '
+         'StopIteration, unprintable exceptions ...), 8 implementation kinds of custom actions (async/sync/object with run/coroutine-returning); every generate call has its own deadline and a '
+         'confirmed hang is a violation.',
+         'Fail-closed is asserted for rails of the library convention (`if not $allowed`); a dialog-action fault in v2 may legitimately give an empty reply; LLM provider failures are excluded as the '
+         'property says.',
+         'DESIGN.md 4/C03'),
+ 'C04': ('exploration',
+         "Hypothesis: recursive pattern generator + payloads derived from the pattern's witness by structural mutation; differential against an independent reference matcher; exhaustive "
+         'small-universe table',
+         'Generated (pattern, payload) pairs - payloads derived from the pattern by insert/drop/swap/alter/retype - are run through the real interpreter (`match Ev(p=P)` then `send Hit()`), and the '
+         'verdict must equal an independent 40-line recursive matcher written from the property text; a table over a tiny universe is enumerated completely; instance-specific matches '
+         '($ref.Finished()) are enumerated for 3 action/flow instances. Since rounds 3-5 also: zero-width regular expressions, priority statements, escape-spelled strings in several styles, payloads '
+         'with 40-324 extras, one reference-based match statement visited for objects of different kinds.',
+         'Trusts the reference matcher; regex-vs-bool/None and numerically-equal cross-type scalars are treated as unspecified and skipped/never generated; patterns are literals (no '
+         'ComparisonExpression).',
+         'DESIGN.md 4/C04'),
+ 'C05': ('exploration',
+         'Hypothesis: generated sets of 2-6 competing flows (specificity, priority, action identity, loop, tie-break outcome); reference winner model with a validity predicate for ties',
+         'Generated competitions are run through the real interpreter with the tie-break (`random.choice`) owned by the case; per interaction loop the set of flows still running must be the '
+         'co-winner set of ONE top-scoring flow (score = 0.9^unmentioned x priority), every other fitting flow stopped, non-fitting flows untouched, and each winning action started exactly once. '
+         'Since rounds 3-5 also: chained competitors (helper flows, by-name and await links, priorities on internal matches; first position of the documented left-to-right comparison asserted), '
+         'multi-argument actions written differently, instances of one activated flow as competitors, started actions finish after the competition.',
+         'Trusts the score formula of the docs (0.9 per unmentioned parameter x priority); ties within 1e-9 accept any tied winner; wrapped variant keeps all flows at equal depth.',
+         'DESIGN.md 4/C05'),
+ 'C06': ('exploration',
+         'Hypothesis: grammar-based Colang 2 program generator (flow/action hierarchies, activation, when, groups) x event histories with late/early/missing action Finished events x tie-breaks; '
+         'history invariants over Start/Stop events and flow statuses',
+         'After every processed event the harness checks, from the outgoing events and a read-only snapshot of the flow instances: no Stop for a never-started, already-stopped or already-finished '
+         'action; every flow instance that left the running set had all its unshared unfinished actions stopped exactly once by the end of that step; no running flow has a non-running parent; '
+         'activated flows are listening while an activator runs and gone when none does. Since rounds 3-4 also: co-won (shared) actions in every order of ends / Started / Finished, activation '
+         'arguments (configurations, several activators, activators arriving after idle clean-up, nested activation), recursive programs.',
+         'Activators are approximated statically (flows containing `activate X`); the finish-without-waiting exception is outside the generated domain.',
+         'DESIGN.md 4/C06'),
+ 'C07': ('exploration',
+         'Hypothesis: and/or formula generator x event sequences; oracle = evaluate the boolean formula over events seen; exhaustive permutations for all formula shapes with <=4 leaves',
+         'Every formula shape with <=4 leaves (depth<=3) is run under ALL orders of its leaf events in the three program forms (match / await / when), and generated formulas of up to 5 leaves are '
+         'run against generated event sequences with repetitions and irrelevant events; the marker after the group statement must appear at exactly the first step at which the formula evaluates to '
+         'true over the set of events seen, never earlier and never twice. Since rounds 3-4 also: statements in loops (re-activation), failing and instant member flows (open finding C07-F20), idle '
+         'time between the events.',
+         'Trusts the 5-line formula evaluator; leaves of one formula are distinct; each leaf flow is `match Ev_i()`; `when` else-branches are not exercised.',
+         'DESIGN.md 4/C07'),
+ 'C08': ('exploration',
+         'Hypothesis: generated signatures x call forms x value types; reference binder (positional -> named -> default -> None) and straight-line callee model; sibling-instance interleavings',
+         'Generated flow signatures and calls (positional/named/default mixes, simple and classic syntax, await/assign/start-ref, literal and event-carried values incl. containers, None, bools and '
+         "hostile strings) are executed by the real interpreter; the parameters echoed by the callee, the value assigned by `$x = await f`, and the caller's/sibling's same-named variables must equal "
+         'a Python reference binder and straight-line evaluation. Since rounds 3-5 also: overridden callees, activated callees with restarts and second activations, parameter reassignment, defaults '
+         'at any position of the signature, return members and bare return.',
+         'Trusts the 20-line reference binder; surplus positionals, globals, no-return assign-await, list literals as simple-syntax positionals and `$`/`{}` in literal strings are outside the '
+         'domain.',
+         'DESIGN.md 4/C08'),
+ 'C09': ('exploration',
+         "Hypothesis: grammar-based Colang 2 program generator x event histories (incl. co-simulated 'hit' events and action life-cycle events) x tie-breaks; invariant checking of the interpreter "
+         'State against a from-scratch scan after every event',
+         'After the start and after every fed event the State object is inspected: no pending internal event, every live head of a listening flow parked on a waiting element, done instances hold no '
+         'live head, the dispatch index equals a from-scratch scan of all waiting match statements (no missing, stale or duplicate entry; reverse map exact), flow_id_states partitions flow_states, '
+         'referenced actions/children/parents exist. Thorough tier additionally enumerates all histories of length <= 4 over a 3-event alphabet for 60 generated programs. Since rounds 3-4 also: '
+         'same-event or-groups with case-owned tie-breaks, heads left on MergeHeads, parent and child waiting for the same event, state round trips inside histories.',
+         "The scan uses the interpreter's own notion of 'listening flow' and of the event name of a match element; the shipped library flows are not part of the generated domain yet.",
+         'DESIGN.md 4/C09'),
+ 'C10': ('fault_enumeration',
+         'Hypothesis-generated Colang 2 programs with one injected erroneous statement at every enumerated/drawn position + immediately failing activated flows; oracle = deterministic step budget, '
+         'canary flows, ColangError watcher, C09 invariants, through the real RuntimeV2_x.process_events',
+         'Eight kinds of erroneous statements (bad expression, subscript, undefined reference, invalid regex / comparison pattern in a match, surplus arguments, out-of-range priority, wrong action '
+         'argument type) are injected at every position after the first wait of fixed helper families (enumerated) and at drawn positions of generated helpers; activated flows that '
+         "finish/return/abort/raise before any wait are added. Events are processed through the real RuntimeV2_x.process_events; per event a step budget on the interpreter's entry points decides "
+         'termination, two canary flows must each react exactly once to every canary event (same and later events), a reached fault must be visible as ColangError to a watcher flow, no exception may '
+         'escape and the C09 structural invariants must still hold. Since rounds 3-5 also: valid comparison patterns meeting wrong-typed payloads, reference faults (undefined / unknown member / '
+         'erroneous arguments), erroneous return statements, faults behind the canary event, erroneous parameter defaults, meta tags and malformed internal events, steered histories.',
+         "Step budget max(2000, 200 x source lines) per event stands in for 'a bound that depends only on the program size'; faults before a flow's first wait and failing activations legitimately "
+         'fail the starter, so only termination is asserted for them.',
+         'DESIGN.md 4/C10'),
+ 'C11': ('exploration',
+         'Hypothesis: generated Colang 2 programs with rich variables x histories x cut points x {save/restore, ageing, both}; differential oracle live continuation vs restored/aged continuation '
+         'under identical tie-breaks and a controlled clock',
+         'For every drawn (program, history, cut, mode) two executions from scratch are compared: the live one, and one that at the cut serialises and restores the State through '
+         "state_to_json/json_to_state (must not raise; C09 invariants must hold on the result) and/or advances the interpreter's clock past the 5 s clean-up age; the canonicalised outgoing events of "
+         'every later step must be identical. Fixed program families (one per rich value kind, activated flows that restart) are run with EVERY cut point x mode. Since round 3 also: round trip '
+         'before every later event (every / every-age), shipped-library leg, runtime leg with state-dependent system actions and dynamic flows through RuntimeV2_x.process_events, LLMRails leg (State '
+         'object live vs JSON state, idle time, rewind to an older snapshot), mixed-key dicts, shared activation, failing child flows; open finding C11-F25 (list aliasing).',
+         'Cuts are between events; set values compared as sets; the LLMRails-level generate(state=...) path is not driven by this check.',
+         'DESIGN.md 4/C11'),
+ 'C12': ('exploration',
+         'exhaustive enumeration of every shipped .co file + Hypothesis grammar-based generation of Colang 1.0/2.x programs; static closure predicate over the compiled element lists',
+         'Every .co file in the repository (210 today; both Colang versions) and generated programs with nested if/while/when, groups, break/continue and flow/action calls are compiled by the real '
+         'parser/expander; a static predicate then requires that only interpreter primitives remain, that every Goto/ForkHead/CatchPatternFailure/Break/Continue target is an indexed Label of the '
+         'same flow, every MergeHeads has its ForkHead, scopes are closed, and (1.0) every relative or absolute jump and branch head lands inside the flow. Since rounds 3-5 also: every generated 2.x '
+         'program compiled twice from the same parsed flows and a further State initialised on the same flow configs, v1 when-chains with flow exits and goto fan-in, bare/mixed loop bodies with '
+         'exit-only branches, groups with repeated members, flows whose expansion raises.',
+         'The predicate is written against the element classes `slide` executes; scope closure is per name, not per path; 2.x files that need flows from outside the standard library and their own '
+         'directory are skipped and counted.',
+         'DESIGN.md 4/C12'),
+ 'C13': ('exploration',
+         'Hypothesis: layout-preserving edits of every shipped .co file and of generated v1/v2 programs (metamorphic parse equality); character mutations, truncations and token soups loaded through '
+         'RailsConfig.from_path (exception-type oracle + hang watchdog), bucketed by root cause',
+         'Layout leg: blank lines, trailing spaces/tabs, (2.x) end-of-line comments, uniform indentation scaling and final-newline changes are applied to all shipped files and generated programs; '
+         'the parse result must be identical modulo source positions. Error leg: mutated/truncated/token-soup texts are written to a temp config and loaded through RailsConfig.from_path; the outcome '
+         'must be success or ColangParsingError naming the file; any other exception type, bucketed by innermost nemoguardrails frame, or a confirmed hang is a violation. Truncation at every byte of '
+         'two small programs is enumerated. Since rounds 4-5 also: argument-list mutations that the grammar accepts and the transformer rejects; probes of an unresolvable import (open finding '
+         'C13-F30).',
+         'Comments are only appended to lines that already hold code (comment-only lines are statements in 2.x); v1 comments are semantic and never inserted; texts with import/include tokens are '
+         'excluded and counted.',
+         'DESIGN.md 4/C13'),
+ 'C14': ('exploration',
+         'Hypothesis: generated structured Colang 1.0 programs (vf/co1.py) x co-simulated follow/leave histories; independent reference interpreter over the source AST; purity re-evaluation on a '
+         'used instance',
+         'Generated flows/subflows (user/bot steps, set, if/else, while, do, execute) are compiled by the real parser; after every event of a co-simulated history (follow the flow, leave it for '
+         'another flow, unknown intent) compute_next_steps - and in most cases RuntimeV1_0.generate_events - must decide exactly the step a 60-line reference interpreter of the source AST expects '
+         '(bot intent, action start with parameters, context updates); every recorded prefix is re-evaluated after other histories ran on the same flow configs/runtime and must give identical steps. '
+         'Since round 4 also: histories that leave a flow on an actionable bot/execute step (also inside a subflow) and re-trigger it.',
+         'Competing intents, when-branches, extension flows and parallel-active flows are outside the stated subset; histories stop where two top-level flows would be active side by side.',
+         'DESIGN.md 4/C14'),
+ 'C15': ('exploration',
+         'Hypothesis: generated sets of adversarially related conversations x sequential interleavings on one shared LLMRails instance, and concurrent generate_async tasks with generated '
+         'latencies/offsets on a virtual-time loop; differential oracle against isolated replay on fresh instances + parameter invariant at quiescence',
+         "Sequential leg: 2-4 conversations over a collision-prone alphabet (':' in texts, histories that re-spell another conversation's transcript with merged messages or swapped roles, context "
+         'messages) are interleaved on one instance; concurrent leg: 2-5 generate_async tasks with per-task llm_params, log and streaming options run under a virtual clock with generated latencies. '
+         'The LLM is a pure function of the prompt. Every conversation is also replayed alone on a fresh instance; replies, logs, streamed chunks, per-turn prompts and the temperature/max_tokens '
+         "seen at call start and end must be identical, and whenever no request is in flight the LLM object's parameters must be the configured ones. Two findings are listed open (C15-F9b llm_params "
+         'race, C15-F9c None left in model_kwargs); while F9b is open three quarters of the concurrent cases come from a sub-domain without llm_params so that the search continues past it. Since '
+         'rounds 3-4 also: an exact defect model of the two open LLMParams findings (schedule probe + replay of save/restore) so that any other parameter deviation is reported, disjoint parameter '
+         'sets, up to 300 conversations of other users between two turns, a Colang 2.x llm-continuation leg, multi-step generation with shared flow bodies.',
+         'asyncio interleavings only (no OS threads); a supplied history that equals (roles and contents) a transcript already served by the instance is the same conversation for the instance and is '
+         'not judged.',
+         'DESIGN.md 4/C15'),
+ 'C16': ('exploration',
+         'exhaustive enumeration of the option-subset x spelling x verdict-vector table (768 rows) + Hypothesis-sampled texts; reference decision table over rail-action trace, LLM call count, reply '
+         'and GenerationResponse.log',
+         'All 16 subsets of {input, dialog, retrieval, output} in list and dict spelling x every effective verdict vector are enumerated completely; for each row no rail of an unselected category '
+         'may run, selected input rails run in order until the first reject, rails-only modes make 0 LLM calls and return exactly user text / rewritten text / supplied bot message / refusal, and '
+         'log.activated_rails lists exactly the rails that ran with stop on exactly the blocking rail. Since rounds 3-5 also: 0-2 rails per category (empty selected categories), one flow listed in '
+         'several rail places, shared result variable and falsy block values, earlier calls awaited in the same task.',
+         'Colang 1.0 only (as the property says); per-rail name lists in options are documented as unsupported and not generated; retrieval rails during refusal generation are not asserted.',
+         'DESIGN.md 4/C16'),
+ 'C17': ('exploration',
+         'Hypothesis + enumerated hostile corpus: adversarial / malformed LLM answers (and mutations of well-formed ones) placed at every LLM call position of multi-turn conversations in nine '
+         'pipeline modes (Colang 1.0 three-step, single-call, multi-step, passthrough, general, with shipped rails; Colang 2.x llm continuation, value generation, passthrough); oracle = generate '
+         'returns a well-formed message, never raises or hangs, planted template/variable syntax is returned literally and the planted secret never appears',
+         'About 190 hostile answer classes, 20 template payloads wrapped in the format of the task at that position, and generated mutations of the well-formed answer are returned by the scripted '
+         "LLM at each call position (reach is measured from the LLM call log); generate must return {'role': 'assistant'|'exception', ...}, never raise, never hang (confirmed watchdog), a following "
+         'benign turn must complete too, and where planted `{{ 7*7 }}` / `$secret_var` / `{$secret_var}` syntax is returned at a message-text position the reply must contain it literally and neither '
+         'the evaluated value nor the planted secret. Violations are bucketed by exception type + innermost nemoguardrails frame. Findings C17-F7c, C17-F7g, C17-F7i and C17-F7j are listed open and '
+         'classified by precise signatures so that the search continues past them. Since rounds 3-4 also: interpolation of several generated values into one string (answers spelling a peer '
+         'placeholder), control strings such as `(remove last message)`, expression errors in multi-step generated flows and self-starting generated Colang 2.x flows (open findings C17-F7i, '
+         'C17-F7j).',
+         'The fixed internal-error reply and empty v2 replies are well-formed outcomes (counted, not violations); a `$var` in a generated bot INTENT is resolved by design and is not a message-text '
+         'position.',
+         'DESIGN.md 4/C17'),
+ 'C18': ('exploration',
+         'Hypothesis-generated texts/configs x exhaustive enumeration of all 2^(n-1) chunkings; metamorphic + reference-function oracle',
+         'Every chunking of each generated short text (all 2^(n-1) of them) is driven through the real StreamingHandler callbacks and must deliver the same concatenation, equal to an independent '
+         'reference string function and to `completion`; texts/configs are sampled, so this is exploration, but the schedule dimension (chunkings) is complete for n<=11. Since rounds 3-5 also: '
+         'generated prefix/suffix/stop patterns, backslash escapes split across tokens, letter-case variants of the configured patterns.',
+         "Trusts the 20-line reference function ref() (prefix strip, first stop cut, suffix strip); tokens are non-empty; cases where 'suffix first' and 'stop first' readings differ are not compared "
+         'with the reference (only with each other).',
+         'DESIGN.md 4/C18'),
+ 'C19': ('exploration',
+         "Hypothesis: generated batching/caching configurations x request schedules (arrival offsets, model latencies) on a virtual-time asyncio loop; oracle = each result equals the fake model's "
+         'own vector, order preserved, no deadlock; enumerated burst grid',
+         'The real BasicEmbeddingsIndex (batching, cache decorator with every store/key generator) is driven with a deterministic fake embedding model on a virtual-clock event loop owned by the '
+         'harness, so arrival times, batch hold times and model latencies are part of the generated case; every returned vector must equal model(text) in input order, stored item embeddings and '
+         'search ranking must be consistent, every request must complete (deadlock/livelock/hang are violations) and nothing may stay pending. A 1465-case burst grid around the batch size is '
+         'enumerated. Since rounds 3-5 also: long list requests, several indexes with different models sharing one cache configuration in one process.',
+         'Only asyncio interleavings at the await points of this code path are explored (no OS threads); a raising model is out of scope.',
+         'DESIGN.md 4/C19'),
+ 'C20': ('exploration',
+         'Hypothesis: grammar-based generator of config id strings (separators, dot sequences, encodings, look-alikes, absolute paths) and generated request histories over several thread ids against '
+         'the real FastAPI app; path-confinement predicate + dict model of threads',
+         'Requests are sent through TestClient to the real api.app with LLMRails stubbed and RailsConfig.from_path wrapped: every path the server tries to load must resolve to the root or below (an '
+         "audit hook also watches file access outside the root), valid ids load exactly root/<id>, everything else gets the fixed 'could not load' reply; for thread histories a dict model predicts "
+         'the exact message list the rails receive and what is stored afterwards, for every step. Since rounds 3-5 also: single-config roots, joined forms of served combinations, overlapping turns '
+         'on two threads, datastore read faults, failing turns.',
+         "The empty/absent id and '.' are checked for confinement only; requests with `context` use the weaker 'stored = received + reply' check; symlinks inside the root are not created.",
+         'DESIGN.md 4/C20')}
 
 TITLES = {}
 with open(os.path.join(HERE, "properties.jsonl")) as f:
